@@ -90,6 +90,9 @@ namespace {
   int by_cptr(const Tracked *t) { in("by_cptr"); return t ? t->get() : -2; }
   int by_sp(std::shared_ptr<Tracked> t) { in("by_sp"); return t ? t->get() : -2; }
   int by_csp(const std::shared_ptr<Tracked> &t) { in("by_csp"); return t ? t->get() : -2; }
+  int by_spref(std::shared_ptr<Tracked> &t) { in("by_spref"); return t ? t->get() : -2; }   // non-const shared_ptr &: pointer_sentinel, not re-seated
+  // re-seats the shared_ptr held by the script value: the old object loses that owner, the value owns a new one
+  void reseat(std::shared_ptr<Tracked> &p, int v) { in("reseat"); p = std::make_shared<Tracked>(v); in("reseated"); }
   int by_bv(Boxed_Value bv) { in("by_bv"); return boxed_cast<const Tracked &>(bv).get(); }
   void keep(std::shared_ptr<Tracked> t) { in("keep"); g_kept->push_back(std::move(t)); }
   void release_kept() { g_kept->clear(); in("release_kept"); }
@@ -145,6 +148,8 @@ namespace {
     m->add(fun(&by_sp), "by_sp");
     m->add(fun(&by_csp), "by_csp");
     m->add(fun(&by_bv), "by_bv");
+    m->add(fun(&by_spref), "by_spref");
+    m->add(fun(&reseat), "reseat");
     m->add(fun(&keep), "keep");
     m->add(fun(&release_kept), "release_kept");
     m->add(fun(&kept_count), "kept_count");
